@@ -28,6 +28,8 @@ def leg_M(ctx):
     ctx.model_check("MC_Matrix", "MC_Matrix_t" if t else "MC_Matrix", workers=w, timeout=3000)
     ctx.model_check("MC_Smtext", "MC_Smtext_bytes8" if t else "MC_Smtext_bytes6", workers=w, heap="8g", timeout=3000)
     ctx.model_check("MC_SmtextTables", "MC_SmtextTables_t" if t else "MC_SmtextTables", workers=w, heap="8g", timeout=3000)
+    if t:   # 3 x 3 with every row and column permutation (one score token)
+        ctx.model_check("MC_SmtextTables", "MC_SmtextTables_t33", workers=w, heap="8g", timeout=3000)
     for module, cfg, inv in BROKEN:
         refuted(ctx, module, cfg, inv)
 
